@@ -10,7 +10,7 @@ open CB
 section
 variable {n m : Nat}
 
-theorem npos_of (hm : m < B ^ n) (hgt : 1 < m) : 0 < n := by
+theorem npos_of (hm : m < B ^ n) (hgt : 0 < m) : 0 < n := by
   rcases Nat.eq_zero_or_pos n with h | h
   · subst h; simp at hm; omega
   · exact h
@@ -43,7 +43,7 @@ theorem one_value (hodd : m % 2 = 1) (hgt : 1 < m) : (B ^ n - 1) % m + 1 = B ^ n
 
 theorem oneOf_spec (hm : m < B ^ n) (hodd : m % 2 = 1) (hgt : 1 < m) :
     oneOf (toLimbs n m) = toLimbs n (B ^ n % m) := by
-  have hn := npos_of hm hgt
+  have hn := npos_of hm (by omega)
   have hpos : 0 < m := by omega
   simp only [oneOf, toLimbs_length, val_toLimbs_lt hm]
   have hr := Nat.mod_lt (B ^ n - 1) hpos
@@ -113,7 +113,7 @@ theorem r3_value {r : List Nat} (_hm : m < B ^ n) (hodd : m % 2 = 1)
 theorem r3Of_spec (hm : m < B ^ n) (hodd : m % 2 = 1) (hgt : 1 < m) :
     r3Of (toLimbs n m) (toLimbs n (B ^ (2 * n) % m)) (negInvOf (toLimbs n m)) = toLimbs n (B ^ (3 * n) % m) ∧
     bSquare (toLimbs n (B ^ (2 * n) % m)) (toLimbs n m) (negInvOf (toLimbs n m)) = toLimbs n (B ^ (3 * n) % m) := by
-  have hn := npos_of hm hgt
+  have hn := npos_of hm (by omega)
   have hpos : 0 < m := by omega
   have hk := (negInvOf_spec (n := n) (m := m) hn hodd).2
   have hr2 : val (toLimbs n (B ^ (2 * n) % m)) = B ^ (2 * n) % m :=
@@ -134,7 +134,7 @@ theorem r3Of_spec (hm : m < B ^ n) (hodd : m % 2 = 1) (hgt : 1 < m) :
 theorem params_eq_spec (hm : m < B ^ n) (hodd : m % 2 = 1) (hgt : 1 < m) :
     paramsNew (toLimbs n m) = paramsSpec n m ∧ paramsNewVartime (toLimbs n m) = paramsSpec n m ∧
     paramsConst (toLimbs n m) = paramsSpec n m ∧ paramsBoxed (toLimbs n m) = paramsSpec n m := by
-  have hn := npos_of hm hgt
+  have hn := npos_of hm (by omega)
   have hpos : 0 < m := by omega
   have h1 := oneOf_spec hm hodd hgt
   have h2 := r2Of_spec (n := n) hm hpos
@@ -151,10 +151,11 @@ theorem params_eq_spec (hm : m < B ^ n) (hodd : m % 2 = 1) (hgt : 1 < m) :
   · simp only [paramsBoxed, paramsSpec, h1, h2, h3b, toLimbs_length, val_toLimbs_lt hm]; rw [hk]
 
 /-- the defined constants are what the history invariant needs. -/
-theorem good_spec (hm : m < B ^ n) (hodd : m % 2 = 1) (hgt : 1 < m) : Good (paramsSpec n m) n m := by
-  have hn := npos_of hm hgt
+theorem good_spec (hm : m < B ^ n) (hodd : m % 2 = 1) : Good (paramsSpec n m) n m := by
+  have hpos : 0 < m := by omega
+  have hn := npos_of hm hpos
   have ⟨hk, hk2⟩ := negInvOf_spec (n := n) (m := m) hn hodd
-  exact ⟨rfl, hm, hodd, hgt, rfl, rfl, by simp only [paramsSpec]; rw [← hk]; exact hk2⟩
+  exact ⟨rfl, hm, hodd, hpos, rfl, rfl, by simp only [paramsSpec]; rw [← hk]; exact hk2⟩
 
 end
 
